@@ -442,7 +442,7 @@ Dom_eval(f, a) ==
   /\ \A i \in 1..Len(a.assign) :
        LET e == a.assign[i].e IN
        /\ ExprVars(e) # {} /\ ExprTotal(e)
-       /\ \A k \in ExprVars(e) : HasVar(f, k) /\ VarRec(f, k).enc = "num"
+       /\ \A k \in ExprVars(e) : HasVar(f, k) /\ VarRec(f, k).enc = "num" /\ VarRec(f, k).dt \in NumTypes
        /\ \A k1, k2 \in ExprVars(e) : VarRec(f, k1).dims = VarRec(f, k2).dims
        /\ ~HasDim(f, a.assign[i].name) /\ ~HasVar(f, a.assign[i].name)
 EvalVar(f, as) ==
